@@ -842,7 +842,7 @@ Fixpoint each_round (fail : exn -> prg) (es : list expr) (s : str) (cands : list
 
 (* `while keepMatching:` ; a round in which something matched but neither the location nor the lists changed repeats
    itself for ever in the real code (a repeatable operand that matches without consuming): Div.  `fuel` bounds the
-   number of rounds (each other round consumes input or removes an operand). *)
+   number of rounds (each other round consumes input or removes an operand): see each_fuel. *)
 Fixpoint each_loop (fail : exn -> prg) (es : list expr) (s : str) (fuel : nat) (tl : nat)
          (reqd opt multis : list each_ent) (mo : list expr)
          (k : list each_ent -> list each_ent -> list expr -> list (exn * nat) -> prg) : prg :=
@@ -855,6 +855,12 @@ Fixpoint each_loop (fail : exn -> prg) (es : list expr) (s : str) (fuel : nat) (
       else if Nat.eqb tl' tl && Nat.eqb (length reqd') (length reqd) && Nat.eqb (length opt') (length opt) then Ret Div
       else each_loop fail es s f tl' reqd' opt' multis mo' k)
   end.
+
+(* Bound on the number of rounds.  Every match of a candidate taken from tmpReqd / tmpOpt removes one element of these
+   lists (the candidates of a round are exactly their members), so without repeatable operands there are at most
+   |required| + |optionals| rounds with a match, plus the last one; a repeatable operand can add one round per character. *)
+Definition each_fuel (slen : nat) (reqd opt multis : list each_ent) : nat :=
+  (match multis with [] => 0 | _ :: _ => slen end) + length reqd + length opt + 3.
 
 (* the second pass: `for e in matchOrder: loc, results = e._parse(instring, loc, do_actions); total_results += results` *)
 Fixpoint each_go2 (k : kont -> prg) (s : str) (d : bool) (mo : list expr) (loc : nat) (acc : pres) : prg :=
@@ -874,7 +880,7 @@ Definition each_impl (k : kont -> prg) (es : list expr) (info : list each_info) 
   let reqd := each_req1 zs ++ each_multi true zs in                 (* self.required += self.multirequired *)
   let opt := each_opt1 zs ++ each_opt2 zs in
   let multis := each_multi false zs in
-  each_loop (fail_of k) es s (length s + length reqd + length opt + 3) loc reqd opt multis []
+  each_loop (fail_of k) es s (each_fuel (length s) reqd opt multis) loc reqd opt multis []
     (fun reqd' opt' mo fatals =>
        match pick_fatal fatals with
        | Some fx => fail_of k fx
